@@ -85,6 +85,41 @@ pub fn bye<S: Src, const NS: usize>(s: &mut S) {
     });
 }
 
+/// Text of concrete length `LEN` whose first `K` characters are two-byte characters (U+00E9):
+/// byte length and character count differ by `K`, everything is a constant.
+fn text_const<const LEN: usize, const K: usize>() -> Text<300> {
+    let mut bytes = [b'a'; 300];
+    let mut i = 0;
+    while i < 2 * K {
+        bytes[i] = if i % 2 == 0 { 0xc3 } else { 0xa9 };
+        i += 1;
+    }
+    Text { len: LEN, bytes }
+}
+
+/// The 255-byte limit of the reason is a limit on bytes, whatever the character count:
+/// concrete multi-byte reason of `LEN` bytes and `LEN - K` characters.
+pub fn bye_utf8_limit<S: Src, const LEN: usize, const K: usize>(s: &mut S) {
+    let c = ByeCfg::<1, 300>::draw_with(s, text_const::<LEN, K>());
+    let b = c.builder();
+    let r = b.calculate_size();
+    common::forget(b);
+    vcover!(r.is_ok() == (LEN <= 255), "multi-byte reason at the limit");
+    decide(r, c.valid(), c.size(), |e| {
+        bad_padding(e, c.padding) || (LEN > 255 && *e == E::ReasonLenTooLarge { len: LEN, max: 255 })
+    });
+}
+
+/// Same for an SDES item value (255 bytes) and a PRIV item (prefix + value <= 254 bytes).
+pub fn sdes_item_utf8_limit<S: Src, const LEN: usize, const K: usize, const PREFIX: usize>(s: &mut S) {
+    let type_ = s.u8();
+    let it = ItemCfg { type_, value: text_const::<LEN, K>(), prefix: Blob { len: PREFIX, bytes: [0x5a; 300] } };
+    let mut buf = [0u8; 600];
+    let r = it.builder().write_into(&mut buf);
+    vcover!(r.is_ok() == it.valid(), "multi-byte value at the limit");
+    decide(r, it.valid(), it.size(), |e| item_err(e, &it));
+}
+
 static BIG: [u8; 300_000] = [0x5a; 300_000];
 
 pub fn app<S: Src>(s: &mut S) {
@@ -322,6 +357,13 @@ common::register! {
     q_bye_0 = bye::<_, 0> => 320,
     q_bye_31 = bye::<_, 31> => 320,
     q_bye_32 = bye::<_, 32> => 320,
+    q_bye_utf8_255 = bye_utf8_limit::<_, 255, 100> => 320,
+    q_bye_utf8_256 = bye_utf8_limit::<_, 256, 100> => 320,
+    q_bye_utf8_300 = bye_utf8_limit::<_, 300, 60> => 320,
+    q_item_utf8_255 = sdes_item_utf8_limit::<_, 255, 100, 0> => 320,
+    q_item_utf8_256 = sdes_item_utf8_limit::<_, 256, 100, 0> => 320,
+    q_item_utf8_priv = sdes_item_utf8_limit::<_, 200, 80, 54> => 320,
+    q_item_utf8_priv_over = sdes_item_utf8_limit::<_, 200, 80, 55> => 320,
     q_app = app => 320,
     q_unknown = unknown => 320,
     kf_c16_app_total_size = kf_app_total_size => 320,
